@@ -901,3 +901,110 @@ func sampleCell(seed int64, n, k int) bool {
 	h ^= h >> 13
 	return int(h%uint32(k)) == 0
 }
+
+// bothFormsFamily (C12): one struct provider whose value form S and pointer form *S are both
+// needed by the same injector, with a provider that WRITES through the *S it receives (to a
+// scratch field the struct provider does not name). Each form must be a struct of its own: the
+// value consumers must see the scratch field zero whatever the pointer holder did and whichever
+// form was built first; every permutation of the consumer's parameters is tried.
+func bothFormsFamily() []*Program {
+	var out []*Program
+	n := 0
+	for _, perm := range orderedSubsets([]int{0, 1, 2, 3}) { // 0 Tuned, 1 Snapshot, 2 S, 3 *S
+		if len(perm) != 4 {
+			continue
+		}
+		for _, star := range []bool{false, true} {
+			n++
+			b := NewPB(fmt.Sprintf("bf%03d", n), "app")
+			dep := b.Carrier(0, "Dep")
+			scratch := FieldT{Name: "Scratch_", Ty: Basic("int")}
+			if star {
+				scratch.Tag = `wire:"-"`
+			}
+			sd := b.P.NewDecl(0, "Config", StructOf(FieldT{Name: "Dep", Ty: dep}, scratch), "none")
+			sv, sp := Named(sd), PtrTo(Named(sd))
+			var st *Item
+			if star {
+				st = b.Struct(sv, true)
+			} else {
+				st = b.Struct(sv, false, "Dep")
+			}
+			tuned := b.Carrier(0, "Tuned")
+			snap := b.Carrier(0, "Snapshot")
+			tune := b.Func(0, "Tune", tuned, false, false, sp)
+			tune.Mutate = true
+			snapf := b.Func(0, "Snap", snap, false, false, sv)
+			tys := []*Ty{tuned, snap, sv, sp}
+			var ps []*Ty
+			for _, x := range perm {
+				ps = append(ps, tys[x])
+			}
+			top := b.Carrier(0, "Top")
+			newTop := b.Func(0, "NewTop", top, false, false, ps...)
+			b.Inj("Init", top, false, false, nil, refs(b.Func(0, "NewDep", dep, false, false), st, tune, snapf, newTop)...)
+			cell := fmt.Sprintf("both-forms/params=%v/star=%v", perm, star)
+			b.P.Note = cell
+			b.P.Feat = map[string]string{"cell": cell}
+			out = append(out, b.P)
+		}
+	}
+	return out
+}
+
+// inventedParamNameFamily (C14): an injector parameter left blank (or unnamed) receives a name
+// wire invents from its type; another parameter of the same injector is NAMED by the user with
+// exactly a name wire is likely to invent (the lower-cased type name, "arg", those with a numeric
+// suffix, the package-qualified spelling). Whatever the order, the generated signature must keep
+// the parameters distinct and feed each consumer from its own parameter.
+func inventedParamNameFamily() []*Program {
+	var out []*Program
+	n := 0
+	kinds := []string{"named", "ptr-named", "lib-named", "slice", "func", "two-blanks"}
+	for _, kind := range kinds {
+		for _, userName := range []string{"foo", "arg", "foo2", "arg2", "libaFoo", "appFoo", "_2", "v"} {
+			for _, blankFirst := range []bool{true, false} {
+				for _, unnamedAll := range []bool{false} {
+					_ = unnamedAll
+					n++
+					b := NewPB(fmt.Sprintf("ip%03d", n), "app", "liba")
+					foo := b.Carrier(0, "Foo")
+					var blankTy *Ty
+					switch kind {
+					case "named", "two-blanks":
+						blankTy = foo
+					case "ptr-named":
+						blankTy = PtrTo(foo)
+					case "lib-named":
+						blankTy = b.Carrier(1, "Foo")
+					case "slice":
+						blankTy = SliceOf(foo)
+					case "func":
+						blankTy = FuncRet(foo)
+					}
+					bar := b.Carrier(0, "Bar")
+					params := []Param{{Name: "_", Ty: blankTy}, {Name: userName, Ty: bar}}
+					ps := []*Ty{blankTy, bar}
+					if kind == "two-blanks" {
+						baz := b.Carrier(0, "Baz")
+						params = []Param{{Name: "_", Ty: blankTy}, {Name: "_", Ty: baz}, {Name: userName, Ty: bar}}
+						ps = []*Ty{blankTy, baz, bar}
+					}
+					if !blankFirst {
+						for i, j := 0, len(params)-1; i < j; i, j = i+1, j-1 {
+							params[i], params[j] = params[j], params[i]
+						}
+					}
+					top := b.Carrier(0, "Top")
+					newTop := b.Func(0, "NewTop", top, false, false, ps...)
+					b.Inj("Init", top, false, false, params, ItemRef(newTop.ID))
+					cell := fmt.Sprintf("invented-param-name/blank=%s/user=%s/blank-first=%v", kind, userName, blankFirst)
+					b.P.Note = cell
+					b.P.Feat = map[string]string{"cell": cell}
+					out = append(out, b.P)
+				}
+			}
+		}
+	}
+	return out
+}
